@@ -710,3 +710,27 @@ func dependsOn(v ssa.Value, pred func(ssa.Value) bool) bool {
 	}
 	return walk(v, 0)
 }
+
+// variadicElems: the values packed into a variadic argument (a slice of a
+// freshly allocated array).
+func variadicElems(arg ssa.Value) []ssa.Value {
+	sl, ok := arg.(*ssa.Slice)
+	if !ok {
+		return nil
+	}
+	al, ok := sl.X.(*ssa.Alloc)
+	if !ok {
+		return nil
+	}
+	var out []ssa.Value
+	for _, r := range *al.Referrers() {
+		if ia, ok := r.(*ssa.IndexAddr); ok {
+			for _, rr := range *ia.Referrers() {
+				if st, ok := rr.(*ssa.Store); ok && st.Addr == ssa.Value(ia) {
+					out = append(out, st.Val)
+				}
+			}
+		}
+	}
+	return out
+}
